@@ -165,11 +165,30 @@ def run(ctx: Context) -> None:
         db = [c for c in calls_in(td) if callee(ctx, td, c) == 'numpy.fromiter']
         ok = (len(db) == 1 and Matcher(ctx, td).match('([$s.start_distance, $s.end_distance] for $s in self.segments)', db[0].args[0])
               and norm_text(kwarg(db[0], 'count') or ast.Constant(None)) == 'len(self.segments)')
+        filled = None
+        if not db:
+            # the same table filled column by column: an (n segments, 2) array whose column 0 is every segment's start and column 1 every segment's end
+            mf = Matcher(ctx, td)
+            alloc = None
+            for alt in ('$tab = numpy.empty((len(self.segments), 2), dtype=float)', '$tab = numpy.zeros((len(self.segments), 2), dtype=float)',
+                        '$tab = numpy.empty((len(self.segments), 2))', '$tab = numpy.zeros((len(self.segments), 2))'):
+                alloc = alloc or mf.stmt(alt)
+            if alloc is not None:
+                tab = mf.name('tab')
+                stores = [n for n in walk_no_nested(td.node) if isinstance(n, (ast.Assign, ast.AugAssign)) and any(
+                    isinstance(t, ast.Subscript) and isinstance(t.value, ast.Name) and t.value.id == tab for t in (n.targets if isinstance(n, ast.Assign) else [n.target]))]
+                c0 = mf.stmt(f"{tab}[:, 0] = [$s.start_distance for $s in self.segments]")
+                c1 = mf.stmt(f"{tab}[:, 1] = [$s.end_distance for $s in self.segments]")
+                if c0 is not None and c1 is not None and len(stores) == 2:
+                    filled = tab
+                    ok = True
         ctx.check('R18.3', ok, "distance bounds: [start, end] per segment over the same list in the same order", td, db[0] if db else td.node)
         lin = mt.stmt("$lin = xarray.DataArray(data=$lis, dims=('index',))")
         dbv = None
         for n in walk_no_nested(td.node):
             if isinstance(n, ast.Assign) and isinstance(n.value, ast.Call) and db and kwarg(n.value, 'data') is db[0]:
+                dbv = n
+            if isinstance(n, ast.Assign) and isinstance(n.value, ast.Call) and filled is not None and isinstance(kwarg(n.value, 'data'), ast.Name) and kwarg(n.value, 'data').id == filled:
                 dbv = n
         ok = lin is not None and dbv is not None and norm_text(kwarg(dbv.value, 'dims') or ast.Constant(None)) == "('index', 'bounds')"
         ctx.check('R18.3', ok, "both are on the transect's index dimension", td, lin or td.node)
